@@ -152,6 +152,18 @@ def _c1516(pid, tier):
     return c1516.check(pid, tier)
 
 
+def _c12(pid, tier):
+    from . import c12
+    return c12.check(pid, tier)
+
+
+def _c04(pid, tier):
+    from . import c04
+    return c04.check(pid, tier)
+
+
+REGISTRY["C04"] = _c04
+REGISTRY["C12"] = _c12
 REGISTRY["C15"] = _c1516
 REGISTRY["C16"] = _c1516
 REGISTRY["C13"] = _c1314
